@@ -89,6 +89,12 @@ MUTATIONS = [
     ('unknown-syntax-falls-back-to-html-defaults', 'C20', 'emmet/config.py',
      "    syntax_defaults = SYNTAX_CONFIG.get(syntax, empty)",
      "    syntax_defaults = SYNTAX_CONFIG.get(syntax, SYNTAX_CONFIG.get('xml'))"),
+    ('option-read-from-the-raw-user-layer', 'C20', 'emmet/markup/format/html.py',
+     "                    inner_format = config.options.get('output.formatLeafNode') or \\\n",
+     "                    inner_format = (config.user_config.get('options') or {}).get('output.formatLeafNode') or \\\n"),
+    ('option-read-from-a-constant-captured-at-import', 'C20', 'emmet/output_stream.py',
+     "        return node.lower() in config.options.get('inlineElements', [])\n",
+     "        return node.lower() in _INLINE\n"),
     ('user-layer-written-back', 'C20', 'emmet/config.py',
      "    result.update(user_config.get(key, empty))\n",
      "    result.update(user_config.get(key, empty))\n    if key == 'variables' and key in user_config and syntax_override.get(key):\n        user_config[key].update(syntax_override[key])\n        result.update(user_config[key])\n"),
@@ -169,6 +175,7 @@ EQUIVALENT = [
 ]
 
 PREAMBLE = {
+    'option-read-from-a-constant-captured-at-import': ('emmet/output_stream.py', "\nfrom .config import DEFAULT_OPTIONS\n_INLINE = DEFAULT_OPTIONS['inlineElements']\n"),
     'tokenizer-memoised-by-source-string-without-bound': ('emmet/abbreviation/__init__.py', "\n_TOKENS = {}\n"),
     'warning-text-contains-the-input': ('emmet/stylesheet/format.py', "\nimport warnings\n"),
     'last-parsed-tree-kept-for-debugging': ('emmet/markup/__init__.py', "\n_LAST = []\n"),
